@@ -747,11 +747,11 @@ impl Engine {
             }
             Op::StaleDir { act, .. } => {
                 let mut errs = vec![Ek::BadHandle];
-                let a = act % 9;
-                if (a == 0 || a == 7 || a == 8) && nd >= self.m.limits.0 {
+                let a = act % 14;
+                if (a == 0 || a == 7 || a == 8 || a == 9 || a == 13) && nd >= self.m.limits.0 {
                     errs.push(Ek::TooManyOpenDirs);
                 }
-                if a == 5 && nf >= self.m.limits.1 {
+                if (a == 5 || a == 11) && nf >= self.m.limits.1 {
                     errs.push(Ek::TooManyOpenFiles);
                 }
                 self.check("C08", "C08.stale", &format!("directory handle action {}", a), res, &Expect { ok: false, errs });
